@@ -72,6 +72,9 @@ type Snapshot struct {
 	QAuthority string
 	QPendingN  int
 	Seqs       map[int]uint64
+	Seq0       map[int]uint64 // sequence numbers right after genesis (gentx signers start at 1)
+	Dels       map[int]string // self-delegation shares by validator id
+	Foreign    []string       // delegations that are not a pool validator's self-delegation
 	ModuleInv  string // x/staking module-account invariant ("" = holds)
 }
 
@@ -100,7 +103,7 @@ func (c *Chain) Snap() *Snapshot {
 	ctx := c.Ctx()
 	app := c.App
 	s := &Snapshot{Height: c.Height, Vals: map[int]*ValSnap{}, Last: map[int]int64{}, Sign: map[int]*SignSnap{}, CometNext: map[int]int64{},
-		QPower: map[int]string{}, Seqs: map[int]uint64{}}
+		QPower: map[int]string{}, Seqs: map[int]uint64{}, Seq0: c.seq0, Dels: map[int]string{}}
 	vals, _ := app.StakingKeeper.GetAllValidators(ctx)
 	for _, v := range vals {
 		id := c.Keys.valID(v.OperatorAddress)
@@ -115,11 +118,13 @@ func (c *Chain) Snap() *Snapshot {
 	dels, _ := app.StakingKeeper.GetAllDelegations(ctx)
 	for _, d := range dels {
 		vid := c.Keys.valID(d.ValidatorAddress)
-		if vs, ok := s.Vals[vid]; ok && d.DelegatorAddress == sdk.AccAddress(c.Keys.Pool[vid].Val).String() {
-			vs.SelfDel = decScaled(d.Shares)
+		if vid >= 0 && vid < poolSize && d.DelegatorAddress == sdk.AccAddress(c.Keys.Pool[vid].Val).String() {
+			s.Dels[vid] = decScaled(d.Shares)
+			if vs, ok := s.Vals[vid]; ok {
+				vs.SelfDel = decScaled(d.Shares)
+			}
 		} else {
-			// a delegation that is not a self-delegation of a known validator: keep it visible
-			s.UBQ = append(s.UBQ, fmt.Sprintf("FOREIGN-DEL %s->%d %s", d.DelegatorAddress, vid, decScaled(d.Shares)))
+			s.Foreign = append(s.Foreign, fmt.Sprintf("FOREIGN-DEL %s %d %s", d.DelegatorAddress, vid, decScaled(d.Shares)))
 		}
 	}
 	it, err := app.StakingKeeper.ValidatorsPowerStoreIterator(ctx)
@@ -155,7 +160,7 @@ func (c *Chain) Snap() *Snapshot {
 			for _, a := range addrs.Addresses {
 				ids = append(ids, fmt.Sprint(c.Keys.valID(a)))
 			}
-			s.UBQ = append(s.UBQ, fmt.Sprintf("UBQ %d %d %s", c.relTime(t), h, strings.Join(ids, ",")))
+			s.UBQ = append(s.UBQ, strings.TrimSpace(fmt.Sprintf("UBQ %d %d %s", c.relTime(t), h, strings.Join(ids, " "))))
 		}
 		qit.Close()
 	}
@@ -164,7 +169,11 @@ func (c *Chain) Snap() *Snapshot {
 	if p.BondDenom == "stake" {
 		denomID = 0
 	}
-	s.Params = fmt.Sprintf("%d %d %d %d %d %s", int64(p.UnbondingTime), p.MaxValidators, p.MaxEntries, p.HistoricalEntries, denomID, decScaled(p.MinCommissionRate))
+	mc := decScaled(p.MinCommissionRate)
+	if mc == "nil" {
+		mc = "-1"
+	}
+	s.Params = fmt.Sprintf("%d %d %d %d %d %s", int64(p.UnbondingTime), p.MaxValidators, p.MaxEntries, p.HistoricalEntries, denomID, mc)
 	s.MaxVals = int64(p.MaxValidators)
 	for i, id := range c.Keys.Pool {
 		info, err := app.SlashingKeeper.GetValidatorSigningInfo(ctx, id.Cons)
@@ -274,9 +283,15 @@ func (c *Chain) queryPower(oper string) string {
 	return fmt.Sprint(r.ConsensusPower)
 }
 
-// Lines renders the snapshot as the projection both sides print (sorted, no free text).
+// Lines renders the snapshot as the numeric rows the model prints too (Model/App.v project_state).
 func (s *Snapshot) Lines() []string {
 	var out []string
+	b2 := func(b bool) int {
+		if b {
+			return 1
+		}
+		return 0
+	}
 	ids := make([]int, 0, len(s.Vals))
 	for id := range s.Vals {
 		ids = append(ids, id)
@@ -284,24 +299,32 @@ func (s *Snapshot) Lines() []string {
 	sort.Ints(ids)
 	for _, id := range ids {
 		v := s.Vals[id]
-		ubh, ubt := v.UBHeight, v.UBTime
-		out = append(out, fmt.Sprintf("VAL %d cons=%d st=%d jailed=%s tok=%s sh=%s ubh=%d ubt=%d msd=%s rate=%s del=%s", v.ID, v.Cons, v.Status, sxBool(v.Jailed), v.Tokens, v.Shares, ubh, ubt, v.MSD, v.Rate, orDash(v.SelfDel)))
+		out = append(out, fmt.Sprintf("VAL %d %d %d %d %s %s %d %d %s %s", v.ID, v.Cons, v.Status, b2(v.Jailed), v.Tokens, v.Shares, v.UBHeight, v.UBTime, v.MSD, v.Rate))
 	}
-	var idx []string
+	dids := make([]int, 0, len(s.Dels))
+	for id := range s.Dels {
+		dids = append(dids, id)
+	}
+	sort.Ints(dids)
+	for _, id := range dids {
+		out = append(out, fmt.Sprintf("DEL %d %s", id, s.Dels[id]))
+	}
+	out = append(out, s.Foreign...)
+	idx := "IDX"
 	for _, e := range s.Idx {
-		idx = append(idx, fmt.Sprintf("%d:%d", e[0], e[1]))
+		idx += fmt.Sprintf(" %d %d", e[0], e[1])
 	}
-	out = append(out, "IDX "+strings.Join(idx, " "))
-	var last []string
+	out = append(out, idx)
+	last := "LAST"
 	lids := make([]int, 0, len(s.Last))
 	for id := range s.Last {
 		lids = append(lids, id)
 	}
 	sort.Ints(lids)
 	for _, id := range lids {
-		last = append(last, fmt.Sprintf("%d:%d", id, s.Last[id]))
+		last += fmt.Sprintf(" %d %d", id, s.Last[id])
 	}
-	out = append(out, "LAST "+strings.Join(last, " "))
+	out = append(out, last)
 	out = append(out, fmt.Sprintf("LTOT %d", s.LastTotal))
 	out = append(out, s.UBQ...)
 	out = append(out, "PARAMS "+s.Params)
@@ -312,27 +335,29 @@ func (s *Snapshot) Lines() []string {
 	sort.Ints(sids)
 	for _, id := range sids {
 		g := s.Sign[id]
-		out = append(out, fmt.Sprintf("SIGN %d start=%d idx=%d until=%d tomb=%s missed=%d", id, g.Start, g.Index, g.JailedUntil, sxBool(g.Tomb), g.Missed))
+		out = append(out, fmt.Sprintf("SIGN %d %d %d %d %d %d", id, g.Start, g.Index, g.JailedUntil, b2(g.Tomb), g.Missed))
 	}
-	for i, p := range s.Pending {
-		out = append(out, fmt.Sprintf("PEND %d oper=%d cons=%d tok=%s sh=%s msd=%s rate=%s max=%s chg=%s mon=%d st=%d jailed=%s", i, p.Oper, p.Cons, p.Tokens, p.Shares, p.MSD, p.Rate, p.MaxRate, p.MaxChg, len(p.Moniker), p.Status, sxBool(p.Jailed)))
+	for _, p := range s.Pending {
+		out = append(out, fmt.Sprintf("PEND %d %d %s %s %s %d", p.Oper, p.Cons, p.Rate, p.MaxRate, p.MaxChg, len(p.Moniker)))
 	}
-	out = append(out, fmt.Sprintf("POA cached=%d abs=%d", s.Cached, s.Abs))
-	out = append(out, fmt.Sprintf("POOL bonded=%s notbonded=%s", s.Bonded, s.NotBonded))
+	out = append(out, fmt.Sprintf("POA %d %d", s.Cached, s.Abs))
+	out = append(out, fmt.Sprintf("POOL %s %s", s.Bonded, s.NotBonded))
 	out = append(out, "SUPPLY "+s.Supply)
-	var q []string
+	q := "QPOWER"
 	for _, id := range []int{0, 1, 2, 3, 4, 5, 6, 7, unknownVal, -2} {
-		q = append(q, fmt.Sprintf("%d:%s", id, s.QPower[id]))
+		a := s.QPower[id]
+		if a == "error" {
+			a = "-1"
+		}
+		q += fmt.Sprintf(" %d %s", id, a)
 	}
-	out = append(out, "QPOWER "+strings.Join(q, " "))
+	out = append(out, q)
+	sq := "SEQ"
+	for _, id := range []int{0, 1, 2, 3, 4, 5, 6, 7, adminID, user1ID} {
+		sq += fmt.Sprintf(" %d %d", id, s.Seqs[id]-s.Seq0[id])
+	}
+	out = append(out, sq)
 	return out
-}
-
-func orDash(s string) string {
-	if s == "" {
-		return "-"
-	}
-	return s
 }
 
 // BlockTrace is everything observed about one block.
@@ -345,6 +370,8 @@ type BlockTrace struct {
 	AppHash []byte
 	After   *Snapshot
 	Spec    BlockSpec
+	Hashes  map[string]string // per-module committed store hashes
+	AnteOK  []bool            // per tx: CheckTx accepted it (its signers' sequences are consumed)
 }
 
 type Trace struct {
@@ -384,14 +411,50 @@ func txOutcome(r *abci.ExecTxResult) string {
 
 // RunHistory executes a history on a fresh chain. restartAt: heights after whose commit the app is
 // torn down and re-created from its database.
+var hashedStores = []string{"poa", "staking", "slashing", "bank", "mint", "distribution"}
+
+// StoreHashes: committed per-module store hashes (what the app hash is built from).
+func (c *Chain) StoreHashes() map[string]string {
+	out := map[string]string{}
+	for _, name := range hashedStores {
+		key := c.App.GetKey(name)
+		if key == nil {
+			continue
+		}
+		out[name] = fmt.Sprintf("%X", c.App.CommitMultiStore().GetCommitKVStore(key).LastCommitID().Hash)
+	}
+	return out
+}
+
+// RunOpts: restartAt = heights after whose commit the app is re-created from its database;
+// noSnap = do not read state or query (a node nobody looks at).
+type RunOpts struct {
+	RestartAt map[int64]bool
+	NoSnap    bool
+	AnteHints [][]bool // per block, per tx: reuse the reference run's CheckTx verdicts (a re-created app has no CheckTx state until its first commit)
+}
+
 func RunHistory(keys *Keys, h History, restartAt map[int64]bool) (*Trace, *Chain, error) {
+	return RunHistoryOpts(keys, h, RunOpts{RestartAt: restartAt})
+}
+
+func RunHistoryOpts(keys *Keys, h History, o RunOpts) (*Trace, *Chain, error) {
+	restartAt := o.RestartAt
 	h.normalize()
 	c, init, err := NewChain(keys, h.Genesis)
 	if err != nil {
 		return nil, nil, err
 	}
-	tr := &Trace{Init: c.Snap(), InitUp: c.updatesOf(init.Validators)}
-	for _, b := range h.Blocks {
+	c.noSnap = o.NoSnap
+	tr := &Trace{InitUp: c.updatesOf(init.Validators)}
+	if !o.NoSnap {
+		tr.Init = c.Snap()
+	}
+	for bi, b := range h.Blocks {
+		c.anteHint = nil
+		if bi < len(o.AnteHints) {
+			c.anteHint = o.AnteHints[bi]
+		}
 		bt := c.ExecBlock(b)
 		tr.Blocks = append(tr.Blocks, bt)
 		if bt.Halt != "" || bt.Comet != "ok" {
@@ -463,13 +526,23 @@ func (c *Chain) ExecBlock(b BlockSpec) *BlockTrace {
 			continue
 		}
 		// the sequence is consumed only if the ante chain accepts the transaction (as in a mempool)
-		var chk *abci.ResponseCheckTx
-		cerr := catch(func() error {
-			var e error
-			chk, e = c.App.CheckTx(&abci.RequestCheckTx{Tx: bz, Type: abci.CheckTxType_New})
-			return e
-		})
-		if cerr == nil && chk != nil && chk.Code == 0 {
+		accepted := false
+		if c.anteHint != nil && i < len(c.anteHint) {
+			accepted = c.anteHint[i]
+		} else {
+			var chk *abci.ResponseCheckTx
+			cerr := catch(func() error {
+				var e error
+				chk, e = c.App.CheckTx(&abci.RequestCheckTx{Tx: bz, Type: abci.CheckTxType_New})
+				return e
+			})
+			accepted = cerr == nil && chk != nil && chk.Code == 0
+		}
+		for len(bt.AnteOK) < i {
+			bt.AnteOK = append(bt.AnteOK, false)
+		}
+		bt.AnteOK = append(bt.AnteOK, accepted)
+		if accepted {
 			for _, s := range signers {
 				bump[s]++
 			}
@@ -492,25 +565,53 @@ func (c *Chain) ExecBlock(b BlockSpec) *BlockTrace {
 		j++
 	}
 	bt.Updates = c.updatesOf(res.Updates)
-	bt.After = c.Snap()
+	bt.Hashes = c.StoreHashes()
+	if !c.noSnap {
+		bt.After = c.Snap()
+	}
 	return bt
 }
 
-// ProjectionLines: the text both the harness and the model print for a block.
+// ProjectionLines: the rows both the harness and the model print for a block.
 func (bt *BlockTrace) ProjectionLines() []string {
 	out := []string{fmt.Sprintf("H %d", bt.Height)}
 	if bt.Halt != "" {
 		return append(out, "HALT")
 	}
+	hasTree := func(t TxSpec) bool {
+		for _, m := range t.Msgs {
+			if m.Kind == "tree" {
+				return true
+			}
+		}
+		return false
+	}
 	for i, o := range bt.TxOut {
-		out = append(out, fmt.Sprintf("TX %d %s", i, strings.Split(o, " #")[0]))
+		o = strings.Split(o, " #")[0]
+		switch {
+		case o == "unsignable":
+			out = append(out, fmt.Sprintf("TX %d -3 0", i))
+		case hasTree(bt.Spec.Txs[i]) && o != "err 0 1" && o != "err 0 5":
+			out = append(out, fmt.Sprintf("TX %d -2 0", i)) // passed the PoA decorators; execution is not modelled
+		case o == "pass":
+			out = append(out, fmt.Sprintf("TX %d -1 0", i))
+		case o == "panic":
+			out = append(out, fmt.Sprintf("TX %d 4 111222", i))
+		default:
+			out = append(out, fmt.Sprintf("TX %d %s", i, strings.TrimPrefix(o, "err ")))
+		}
 	}
-	var ups []string
+	ups := "UPD"
 	for _, u := range bt.Updates {
-		ups = append(ups, fmt.Sprintf("%d:%d", u[0], u[1]))
+		ups += fmt.Sprintf(" %d %d", u[0], u[1])
 	}
-	out = append(out, "UPD "+strings.Join(ups, " "))
-	out = append(out, "COMET "+strings.Split(bt.Comet, ":")[0])
+	out = append(out, ups)
+	cc := map[string]int{"ok": 0, "duplicate": 1, "negative": 2, "remove-nonmember": 3, "empty": 4, "power-too-large": 5}
+	code, ok := cc[strings.Split(bt.Comet, ":")[0]]
+	if !ok {
+		code = 9
+	}
+	out = append(out, fmt.Sprintf("COMET %d", code))
 	if bt.Comet != "ok" {
 		return out
 	}
